@@ -10,8 +10,10 @@ Answers to the audit items B13, B20, B15, B16 (docs/C10.md, section "Audit round
   router + handler): each (status, message) pair ↔ the exact condition on the request and the broker, the
   list of pairs is exhaustive, the broker after a 200 is an explicit expression, and nothing changes
   otherwise. The structures `TopicEndpoint`, `ChannelEndpoint`, `PubEndpoint` (`Nsq.Proofs.HttpChar`) hold
-  these equivalences field by field. Router-level statuses (403, 405) are equivalences too; `no_500` now
-  carries the hypothesis `Complete rq` that the real code needs.
+  these equivalences field by field. Router-level statuses (403, 405) are equivalences too (`router_status_iff` — the only place
+  where 403 is covered: every `*_char`, `pub_char`, `stats_char` assumes `hc.tlsRefuse = false` and the exact method and
+  path of its endpoint); `no_500_complete` is a model statement for every request, `Complete rq` is the named exclusion
+  under which it is claimed of the real server (not a used hypothesis: the model has no read-error branch).
 * §4 (B15): text `/mpub` — exact acceptance, exact divergence from binary `/mpub` / TCP `MPUB`, and the
   refutation of the literal clause "same size limits".
 * §5 (B16): how many body bytes each handler reads; bounded for every handler after fix F33, unbounded
@@ -195,12 +197,14 @@ theorem router_status_iff (hc : HConf) (healthy : Bool) (b : Broker) (rq : Reque
       · simp [handle, ht, resp] at h
     · intro ⟨h1, h2⟩; simp [handle, h1, h2, resp]
 
-/-- No *complete* request is answered 500 while the daemon is healthy. `Complete rq` (declared length =
-bytes that arrive, or chunked) is a real precondition: the model has no read-error branch, the real
-`/pub`, text `/mpub` and `PUT /config` answer 500 INTERNAL_ERROR when the body stops short of
-Content-Length (nsqd/http.go, the `io.ReadAll` / `ReadBytes` error returns) — observed on the listener by
-the harness (`interrupted:*` histogram), excluded here by name. -/
-theorem no_500_complete (hc : HConf) (b : Broker) (rq : Request) (_hcomp : Complete rq) :
+/-- No request is answered 500 BY THE MODEL while the daemon is healthy (claim audit 2, item 51: the former hypothesis
+`Complete rq` was never used by the proof and is dropped — the model has no read-error branch at all, so the statement
+holds for every model request and coincides with `C10.no_500`).  `Complete rq` (declared length = bytes that arrive, or
+chunked; examples below) remains the NAMED EXCLUSION under which this model statement is claimed of the real server: the
+real `/pub`, text `/mpub` and `PUT /config` answer 500 INTERNAL_ERROR when the body stops short of Content-Length
+(nsqd/http.go, the `io.ReadAll` / `ReadBytes` error returns) — observed on the listener by the harness (`interrupted:*`
+histogram), not modelled. -/
+theorem no_500_complete (hc : HConf) (b : Broker) (rq : Request) :
     (handle hc true b rq).1.status ≠ .s500 := by
   intro h
   have := (handle_doc hc true b rq).s500 h
